@@ -2,7 +2,7 @@ import props as _props
 from locks_gen import regen_locks
 
 PROP = {
-    "coq": ["C10", "C10b", "C10c"],
+    "coq": ["C10", "C10b", "C10c", "C10d"],
     "pre": [regen_locks],
     "extra": [_props.race_detector_run("C10")],
     "exhaustive": False,
@@ -11,6 +11,7 @@ PROP = {
             "probe outcomes (a request after Stop must find the connection closed; a connection accepted during Stop must be refused; "
             "Start after Stop serves on the same address) are compared with the transition system."
             " Scenario lifeblock: the same kind of traces on a server bound to a fixed address which the harness occupies with a foreign listener while the server is stopped (K) and releases (U): Start while the address is occupied must return an error and leave the server stopped (started flag, active list, live accept goroutines), Stop afterwards must not panic nor fail, a stopped server must refuse a dial, and Start after the release must serve again on that address (model: Model/Lifeblock.v, theorems C10c)."
+            " Scenario tlsstop: lifecycle traces on a real tcp+tls server (fixed loopback address, certificates of the C14 harness) with client connections in every phase of becoming a session when Stop runs - TCP connected and silent, real ClientHello sent and stalled, handshake complete and idle, handshake complete with the first bytes of a request sent, accepted with the accept goroutine held before the admission step: after Stop returned every one of them must see EOF/reset within a grace period (3 s, one-sided), the snapshot (started flag, active-list length, live accept goroutines and live session goroutines handleTCPClient/startTLS from runtime.Stack) must show nothing left, a handshake continued or a request sent afterwards must fail without a handler call (handler counter compared at every request and at the end), and Start afterwards must serve a new TLS client on the same address (model: Model/TlsLife.v, theorems C10d)."
             " The lock-skeleton extractor tracks local aliases of shared slice/map fields (a copy of the slice header used after Unlock is an access to the field outside the lock).",
     "assumptions": ["goroutine liveness after Stop and data-race freedom are runtime facts: see level note"],
 }
